@@ -1529,6 +1529,9 @@ func (p *Program) eventNodes(g *IG, pred func(ssa.Instruction) bool) (must, may 
 			continue
 		}
 		y := c.Call.StaticCallee()
+		if g.Inlined != nil && g.Inlined[c] != nil {
+			continue // spliced into this graph: its own instructions are the events
+		}
 		if y == nil || !p.inModule(y) || fnPkg(y) != fnPkg(g.Fn) || y == g.Fn {
 			continue
 		}
